@@ -1,13 +1,43 @@
-/- line-protocol handlers of the "id" family (stub: filled in by the family's model) -/
+/- line-protocol handlers of the "id" family (ID, IDC)
+
+  (id identify <graph> (x…) (y…) <tape>)            -> (ok <expr>) | (err …)
+  (id identify_outcomes <graph> (x…) (y…) <tape>)   -> (ok none) | (ok (some <expr>)) | (err …)
+
+  <tape> = (((node…) (order…)) …): the topological orders the real run obtained from networkx, keyed by the
+  node set of the graph that was sorted (`Identification` rebuilds its graph from a *set* of nodes, so the
+  order is hash-seed dependent).  A graph not on the tape is sorted by the model of `topological_sort`.
+-/
 import Y0.Model.Graph
 import Y0.Model.Expr
+import Y0.Model.Id
 import Y0.Driver.Graph
 
 namespace Y0.Driver
 open Y0 Sexp
 
-def handleId (op : String) (args : List Sexp) : Option Sexp :=
+def parseTape : Sexp → Option (List (List Nat × List Nat))
+  | .list xs => xs.mapM fun
+      | .list [a, b] => do pure (← asNats? a, ← asNats? b)
+      | _ => none
+  | _ => none
+
+def topoFromTape (tape : List (List Nat × List Nat)) (G : MG Nat) : Except Err (List Nat) :=
+  match tape.find? (fun p => seteq' p.1 G.nodes) with
+  | some p => .ok p.2
+  | none => G.topologicalSort
+
+def optExprToSexp : Option Expr → Sexp
+  | none => .atom "none"
+  | some e => tagged "some" [Codec.exprToSexp e]
+
+def handleId (op : String) (args : List Sexp) : Option Sexp := do
   match op, args with
+  | "identify", [g, x, y, t] =>
+      pure (exceptToSexp Codec.exprToSexp
+        (identify (topoFromTape (← parseTape t)) (← parseGraph g) (dedup' (← asNats? x)) (dedup' (← asNats? y))))
+  | "identify_outcomes", [g, x, y, t] =>
+      pure (exceptToSexp optExprToSexp
+        (identifyOutcomes (topoFromTape (← parseTape t)) (← parseGraph g) (dedup' (← asNats? x)) (dedup' (← asNats? y))))
   | _, _ => none
 
 end Y0.Driver
